@@ -79,6 +79,12 @@ def candidates(m):
     if m.l_live('L9'):
         for order in ('first', 'last', 'other-loop', 'alone'):
             o.append(SessionBadUpdate(order))
+        # a second iterator while the helper iteration is open (same loop / another loop that has packets)
+        o.append(SecondIterOpen('L9'))
+        for l in ('L0', 'L1', 'L2'):
+            if m.l_live(l) and m.L[l][2].packets:
+                o.append(SecondIterOpen(l))
+                break
     return o
 
 
@@ -117,9 +123,23 @@ class SessionBadUpdate(Op):
         return [] if ans[-1].get('rc') == WRONG_LOOP else ['%r: update answered %r, CIF_WRONG_LOOP expected' % (self, ans[-1])]
 
 
+class SecondIterOpen(Op):
+    """while the iteration of a non-plain context is open, cif_loop_get_packets on the same CIF is refused (one transaction per
+    CIF); the refusal must not disturb the open iteration nor what was done through it"""
+    rc_index = -1
+    nonplain_only = True
+
+    def lines(self):
+        (l,) = self.args
+        return ['itr.open %s I3' % l]
+
+    def step(self, m, ans):
+        return []
+
+
 def must_fail(m, op):
     mm = m.clone()
-    if isinstance(op, (StaleLoopCall, FailingIterUpdate, SessionBadUpdate)):
+    if isinstance(op, (StaleLoopCall, FailingIterUpdate, SessionBadUpdate, SecondIterOpen)):
         return True
     try:
         if isinstance(op, LoopAddPkt):
@@ -193,6 +213,8 @@ def probe_state(uni, hist, m):
             if variant != 'plain' and getattr(op, 'plain_only', False):
                 continue
             if variant != 'in-session-close' and getattr(op, 'session_only', False):
+                continue
+            if variant == 'plain' and getattr(op, 'nonplain_only', False):
                 continue
             o, c = ctx(variant)
             try:
